@@ -84,6 +84,7 @@ func verifyFunc(g *Global, fn *ssa.Function, fc *FuncContract) *FuncResult {
 	for _, fv := range fn.FreeVars {
 		fr.vals[fv] = ex.vc.fresh("fv_"+fv.Name(), SRef)
 	}
+	st = ex.ghostInit(st)
 	fr.entry = st
 	// requires
 	for _, rq := range fc.Requires {
